@@ -387,7 +387,67 @@ def _only_in_warning(fn, read):
     return False
 
 
+_NONRAISING_CALLS = {'register', 'unregister', '_invalidate_fp', 'DataType', 'id', 'len', 'with_nullable', 'list', 'tuple'}
+
+
+def commit_last(pid='C08'):
+    """C08 (atomicity of the promotion): in Vector._promote nothing that can still fail may run after
+    the first store to a field of self - the converted storage is computed first, the stores come
+    last.  Judgement: a statement after the first store that converts elements (calls a
+    parameter-derived callable or a builtin numeric type, or contains a comprehension that calls
+    anything) or raises is a violation; a call of an unknown helper there is undecided."""
+    classes = load_classes()
+    ent = next((v for k, v in classes.items() if k[0] == 'Vector' and k[1] == '_promote'), None)
+    q = 'vector.Vector._promote'
+    if ent is None:
+        return [_ob(f'{pid}:{q}:commit-last', 'undecided', q, 'Vector._promote not found', kind='protocol')]
+    fname, cnode, fn = ent
+    self_name = fn.args.args[0].arg
+    stmts = []
+
+    def flat(block):
+        for st in block:
+            stmts.append(st)
+            for fld in ('body', 'orelse', 'finalbody'):
+                sub = getattr(st, fld, None)
+                if isinstance(sub, list) and sub and isinstance(sub[0], ast.stmt):
+                    flat(sub)
+    flat(fn.body)
+    stores = [st for st in stmts if isinstance(st, (ast.Assign, ast.AugAssign)) and any(
+        isinstance(t, ast.Attribute) and isinstance(t.value, ast.Name) and t.value.id == self_name
+        for t in (st.targets if isinstance(st, ast.Assign) else [st.target]))]
+    if not stores:
+        return [_ob(f'{pid}:{q}:commit-last', 'undecided', q, 'no direct store to a field of self (the swap was moved into a helper)', kind='protocol')]
+    first = min(st.lineno for st in stores)
+    bad, unknown = [], []
+    for st in stmts:
+        if st.lineno <= first or isinstance(st, (ast.If, ast.For, ast.While, ast.With, ast.Try)):
+            continue
+        if isinstance(st, ast.Raise):
+            bad.append(f'line {st.lineno}: raise after the first store')
+            continue
+        for n in ast.walk(st):
+            if isinstance(n, (ast.GeneratorExp, ast.ListComp, ast.SetComp, ast.DictComp)) and any(isinstance(c, ast.Call) for c in ast.walk(n)):
+                bad.append(f'line {st.lineno}: elements are still being converted after the first store: {ast.unparse(st)[:80]}')
+                break
+            if isinstance(n, ast.Call):
+                nm = n.func.attr if isinstance(n.func, ast.Attribute) else getattr(n.func, 'id', '?')
+                if nm in _NONRAISING_CALLS:
+                    continue
+                if nm in ('int', 'float', 'complex', 'bool', 'convert', 'target_kind', 'new_dtype'):
+                    bad.append(f'line {st.lineno}: conversion after the first store: {ast.unparse(st)[:80]}')
+                else:
+                    unknown.append(f'line {st.lineno}: {nm}(...)')
+    if bad:
+        return [_ob(f'{pid}:{q}:commit-last', 'refuted', q, 'a failing conversion would leave the vector half-promoted (dtype / storage already replaced)', '; '.join(bad), 'protocol')]
+    if unknown:
+        return [_ob(f'{pid}:{q}:commit-last', 'undecided', q, 'calls of unknown helpers after the first store: ' + '; '.join(unknown), kind='protocol')]
+    return [_ob(f'{pid}:{q}:commit-last', 'discharged', q, kind='protocol')]
+
+
 def obligations(pid):
+    if pid == 'C08':
+        return column_map_protocol(pid) + commit_last(pid)
     if pid == 'C15':
         return alias_protocol(pid)
     if pid == 'C16':
